@@ -157,6 +157,7 @@ class Env(object):
         self.open_by = {}
         self.mutated = False
         self.policy_flip = 0
+        self.writers = None       # async twin: [(asyncio task, nbytes)] per bulk_write when set to a list
         self.write_hook = None    # called with the bytes of every bulk_write (harness-side effects tied to an instant of the execution)
 
     def _frame(self):
@@ -394,15 +395,31 @@ def make_async_transport(env):
 
         async def close(self):
             await self._gate()
+            self._flush()
             self.env.t_close()
 
         async def bulk_read(self, numbytes, transport_timeout_s):
             await self._gate()
+            self._flush()
             return self.env.t_read(numbytes, transport_timeout_s)
 
         async def bulk_write(self, data, transport_timeout_s):
             await self._gate()
+            self._flush()
+            if self.env.writers is not None:
+                import asyncio
+                self.env.writers.append((asyncio.current_task(), len(data)))
+            if self.env.cfg.get('lazy_write'):
+                # like asyncio's StreamWriter: the buffer is accepted at once and kept BY REFERENCE; its bytes leave at the next transport
+                # call.  A caller that reuses (mutates) the object it handed over corrupts what is still queued.
+                self._held = data
+                return len(data)
             return self.env.t_write(data, transport_timeout_s)
+
+        def _flush(self):
+            held, self._held = getattr(self, '_held', None), None
+            if held is not None:
+                self.env.t_write(bytes(held), None)
 
         async def _gate(self):
             if self.env.sched is not None:
